@@ -20,6 +20,12 @@
 //         surface density + density PDF (1 bin)}, hydro mask {off, RescaledIC,
 //         BlockSyntax (not in the restart modes)}, turbulence forcing, diffuse
 //         field, continuous source, thread count of the restarted leg
+// x capacity regime {generous; tight = measured peak demand of the unchanged
+// tree + margin, table c12_tight_table.inc: the ring cursors of the task vector
+// and of the buffer pool wrap around onto slots that are still in use}
+// x snapshot field selection (FIELDSEL[]: defaults, everything on, three
+// non-contiguous per-ion selections, one vector field, one scalar field, a
+// prefix of the ion list, nothing)
 // x threads {1, 2} x grid layout {4^3 cells in 2x2x1 subgrids, 8^3 in 4x4x4,
 // 16x9x4 in 4x3x2 (4x3x2 cells per subgrid: nx > ny > nz), 4x9x16 in 2x3x4
 // (2x3x4 per subgrid: nx < ny < nz), and the two crossed ones 8x9x8 in 2x3x4 /
@@ -32,7 +38,8 @@
 // ... uninitialised byte(s)" (padding of raw structs written to files is not a
 // decision; those are counted in `extra`). Violation keys name the error kind
 // and the first frame inside the project, never the configuration (exception:
-// the two degenerate tracker files carry a regime suffix, see key_suffix()).
+// the two degenerate tracker files and the non-contiguous ion selections carry
+// a regime suffix, see key_suffix()).
 // Precondition (assumption): the rhd modes require a discrete source
 // distribution. Three probes with "PhotonSourceDistribution: type: None" are
 // run; their outcome is only recorded (extra.probes_not_judged), never judged.
@@ -40,11 +47,15 @@
 // quick   : both tools on a strength-2 array of the rhd family with the mode as
 //           one of the factors (plus every pair of first-version values with
 //           every mode) and a strength-2 array of the ion mode (layouts 0-3);
-//           AddressSanitizer alone additionally on a strength-2 array PER MODE
-//           over the whole alphabet (all six layouts).
+//           field selections 0-1 only; AddressSanitizer alone additionally on a
+//           strength-2 array PER MODE over the whole alphabet (all six layouts,
+//           all field selections).
 // thorough: both tools on a strength-3 array per mode over the whole alphabet
-//           that also contains every on/off subset of the optional components
-//           with every mode and thread count and with every mode and layout.
+//           (the field selection takes part in pairs only) that also contains
+//           every on/off subset of the optional components with every mode and
+//           thread count and with every mode and layout.
+// C12_CALIBRATE=<build dir of an instrumented tree>: not a check, measures the
+// demand of every base configuration (NOTES.md).
 #include "c12_util.hpp"
 
 #include <map>
@@ -118,6 +129,91 @@ static const char *TPOP_WHAT[NTPOP] = {
     "3 trackers [2,1]: a tracker of type Multi (2 members) followed by a Spectrum tracker in the same cell, "
     "and a Multi tracker alone in another cell (text output only)"};
 
+// capacity regimes of the task-based machinery: `number of buffers` (MemorySpace
+// ring), `number of tasks` (ThreadSafeVector< Task > ring), `queue size per
+// thread`, `shared queue size`. The four values of one regime are all
+// different, so that a capacity used in the role of another one is visible.
+// 0: generous (no ring cursor ever reaches the end of its pool);
+// 1: tight but sufficient (table TIGHT below, from the calibration described in
+//    NOTES.md: measured peak demand of the unchanged tree + margin; the number
+//    of requests between two resets of a pool exceeds its capacity, so the ring
+//    cursor wraps around onto slots that are still in use)
+struct Capacities {
+  int buffers, tasks, per_thread, shared;
+};
+static const int NCAP = 2;
+static const Capacities GENEROUS = {256, 4096, 1024, 640};
+// Measured peak demand of the unchanged tree per demand class (generated by the
+// calibration mode, see NOTES.md): family (0 ion, 1 rhd with radiation, 2 rhd
+// without), layout, threads of the first leg, threads of the last leg, diffuse
+// field, source copy level and continuous source (ion family only, else 0);
+// off = number of permanent hydro tasks, tasks/buffers/per_thread/shared = peak
+// number of simultaneously used elements (maximum over every configuration of
+// the class, 2-thread classes: over repeated runs).
+struct Demand {
+  int fam, layout, th, rt, diffuse, copy, cont;
+  int off, tasks, buffers, per_thread, shared;
+};
+static const Demand DEMAND[] = {
+#include "c12_tight_table.inc"
+};
+static const size_t NDEMAND = sizeof(DEMAND) / sizeof(DEMAND[0]);
+
+// snapshot field selections (block DensityGridWriterFields of the parameter
+// file). Ion properties: NeutralFraction<ion> for the 14 ions H He C+ C++ N N+
+// N++ O O+ Ne Ne+ S+ S++ S+++ (bits 0..13 of one flag word).
+struct FieldSelection {
+  const char *what;
+  const char *text;      // lines below "DensityGridWriterFields:" ("" = block absent)
+  bool noncontiguous;    // the selected ions are not a prefix H, He, ... of the ion list
+};
+static const char *ALL_IONS_ON =
+    "  NeutralFractionH: 1\n  NeutralFractionHe: 1\n  NeutralFractionC+: 1\n  NeutralFractionC++: 1\n"
+    "  NeutralFractionN: 1\n  NeutralFractionN+: 1\n  NeutralFractionN++: 1\n  NeutralFractionO: 1\n"
+    "  NeutralFractionO+: 1\n  NeutralFractionNe: 1\n  NeutralFractionNe+: 1\n  NeutralFractionS+: 1\n"
+    "  NeutralFractionS++: 1\n  NeutralFractionS+++: 1\n";
+static const int NFIELDSEL = 9;
+static const FieldSelection FIELDSEL[NFIELDSEL] = {
+    {"defaults (block absent)", "", false},
+    {"everything on: 5 vector fields, 10 scalar fields + 14 ions", "ALL", false},
+    {"H off, He on (one ion, not the first)", "  NeutralFractionH: 0\n  NeutralFractionHe: 1\n", true},
+    {"H on, He off, O+ on, S+++ (the last ion) on, NumberDensity and Temperature on",
+     "  NumberDensity: 1\n  Temperature: 1\n  NeutralFractionH: 1\n  NeutralFractionHe: 0\n  NeutralFractionO+: 1\n"
+     "  NeutralFractionS+++: 1\n",
+     true},
+    {"only Coordinates (1 vector field, 0 scalar fields)",
+     "  Coordinates: 1\n  NumberDensity: 0\n  Temperature: 0\n  NeutralFractionH: 0\n  Density: 0\n  Velocities: 0\n"
+     "  Pressure: 0\n",
+     false},
+    {"only Temperature (0 vector fields, 1 scalar field)",
+     "  Coordinates: 0\n  NumberDensity: 0\n  Temperature: 1\n  NeutralFractionH: 0\n  Density: 0\n  Velocities: 0\n"
+     "  Pressure: 0\n",
+     false},
+    {"only NeutralFractionS+++ (the last ion alone)",
+     "  Coordinates: 0\n  NumberDensity: 0\n  Temperature: 0\n  NeutralFractionH: 0\n  NeutralFractionS+++: 1\n"
+     "  Density: 0\n  Velocities: 0\n  Pressure: 0\n",
+     true},
+    {"a prefix of the ion list: H, He, C+ (3 ions) + the defaults",
+     "  NeutralFractionH: 1\n  NeutralFractionHe: 1\n  NeutralFractionC+: 1\n", false},
+    {"no field at all (0 datasets)",
+     "  Coordinates: 0\n  NumberDensity: 0\n  Temperature: 0\n  NeutralFractionH: 0\n  Density: 0\n  Velocities: 0\n"
+     "  Pressure: 0\n",
+     false}};
+
+static std::string fields_text(int sel) {
+  const FieldSelection &f = FIELDSEL[sel];
+  if (!*f.text)
+    return "";
+  std::string t = "DensityGridWriterFields:\n";
+  if (std::string(f.text) == "ALL")
+    t += std::string("  Coordinates: 1\n  NumberDensity: 1\n  Temperature: 1\n") + ALL_IONS_ON +
+         "  CosmicRayFactor: 1\n  Density: 1\n  Velocities: 1\n  Pressure: 1\n  Mass: 1\n  Momentum: 1\n"
+         "  TotalEnergy: 1\n  Acceleration: 1\n";
+  else
+    t += f.text;
+  return t;
+}
+
 struct Config {
   int mode = 0;
   int threads = 1;
@@ -133,6 +229,9 @@ struct Config {
   int tpop = 0;    // TrackerPop
   int tfmt = 0;    // 0 text files, 1 one HDF5 file (meaningless and 0 when tpop == TP_OFF)
   int copy = 0;    // source copy level: 2^copy - 1 copies of the subgrid that holds the source
+  // both: capacity regime (0 generous, 1 tight) and snapshot field selection (index into FIELDSEL)
+  int cap = 0;
+  int fields = 0;
   // probe outside the lattice: "PhotonSourceDistribution: type: None"
   int nosource = 0;
   // restart modes: thread count of the restarted leg (0: the same as the first leg)
@@ -140,6 +239,75 @@ struct Config {
   int restart_threads() const { return rthreads ? rthreads : threads; }
   /// source copy level written to the parameter file
   int copy_level() const { return mode == ION ? copy : (threads == 2 ? 1 : 0); }
+  /// position of the snapshot field selection in factors()
+  size_t fields_factor() const { return mode == ION ? 8 : 10; }
+  int family() const { return mode == ION ? 0 : (mode == RHD_RAD || mode == RHD_RAD_RESTART) ? 1 : 2; }
+  int thread_class() const { return std::max(threads, restart_threads()) >= 2 ? 1 : 0; }
+  /// demand class of this configuration (the factors the demand depends on)
+  Demand demand_key() const {
+    Demand d = {family(), layout, threads, restart_threads(), diffuse, 0, 0, 0, 0, 0, 0, 0};
+    if (mode == ION) {
+      d.copy = copy;
+      d.cont = cont;
+    }
+    return d;
+  }
+  const Demand *demand() const {
+    const Demand k = demand_key();
+    for (size_t i = 0; i < NDEMAND; ++i) {
+      const Demand &d = DEMAND[i];
+      if (d.fam == k.fam && d.layout == k.layout && d.th == k.th && d.rt == k.rt && d.diffuse == k.diffuse &&
+          d.copy == k.copy && d.cont == k.cont)
+        return &d;
+    }
+    return nullptr;
+  }
+  /// Tight capacities: measured peak + margin.
+  /// Every leg has one thread (the demand is deterministic): +8 tasks, +8
+  /// buffers, +4 entries of the queue of the thread, +3 of the shared queue;
+  /// rhd without radiation: the task vector is exactly full (the demand is the
+  /// number of hydro tasks, a function of the layout alone).
+  /// Some leg has two threads (the demand depends on the schedule): tasks
+  /// +24 + half of the non-permanent tasks, buffers +24 + 100 %; the two queues
+  /// get a bound that no schedule can exceed instead of a measured one (a queue
+  /// holds distinct live tasks: at most all tasks / all non-permanent tasks),
+  /// because the peak length of the shared queue has a long tail: measured
+  /// maximum 2 in 6 runs of every configuration, but 15 of 33 000 runs needed
+  /// more than 6.
+  /// The four values are made pairwise different.
+  Capacities capacities() const {
+    // coordinator: tight capacities only where the demand is deterministic (one thread in every
+    // leg). With two threads the peak demand depends on the schedule; the calibrated margins held in
+    // 40 080 runs, but an exhausted pool makes the unchanged code spin for ever, which this check would
+    // report - a false alarm the property does not allow. Two-thread configurations of the "tight"
+    // regime therefore run with the generous capacities (counted as such in the evidence).
+    if (!cap || thread_class() != 0)
+      return GENEROUS;
+    const Demand *d = demand();
+    if (!d) {
+      fprintf(stderr, "no demand class for %s\n", label().c_str());
+      exit(3);
+    }
+    Capacities c;
+    if (thread_class() == 0) {
+      c.tasks = family() == 2 ? d->tasks : d->tasks + 8;
+      c.buffers = d->buffers + 8;
+      c.per_thread = d->per_thread + 4;
+      c.shared = d->shared + 3;
+    } else {
+      c.tasks = d->tasks + 24 + (d->tasks - d->off) / 2;
+      c.buffers = 2 * d->buffers + 24;
+      c.per_thread = c.tasks + 3;
+      c.shared = c.tasks - d->off + 5;
+    }
+    while (c.buffers == c.tasks)
+      ++c.buffers;
+    while (c.per_thread == c.tasks || c.per_thread == c.buffers)
+      ++c.per_thread;
+    while (c.shared == c.tasks || c.shared == c.buffers || c.shared == c.per_thread)
+      ++c.shared;
+    return c;
+  }
 
   std::string label() const {
     std::string s = fmt("%s/t%d/grid%d", MODE_NAME[mode], threads, layout);
@@ -148,7 +316,7 @@ struct Config {
     } else {
       s += fmt("/live=%d/mask=%d/turb=%d", live, mask, turb);
     }
-    s += fmt("/diffuse=%d/cont=%d", diffuse, cont);
+    s += fmt("/diffuse=%d/cont=%d/cap=%d/fields=%d", diffuse, cont, cap, fields);
     if (nosource)
       s += "/no-discrete-source";
     if (rthreads)
@@ -158,15 +326,15 @@ struct Config {
   std::string json(const std::string &tool) const {
     return fmt("{\"mode\": %d, \"threads\": %d, \"live\": %d, \"mask\": %d, \"turb\": %d, \"diffuse\": %d, "
                "\"cont\": %d, \"tpop\": %d, \"tfmt\": %d, \"copy\": %d, \"nosource\": %d, \"layout\": %d, "
-               "\"rthreads\": %d, \"tool\": \"%s\", \"label\": \"%s\"}",
-               mode, threads, live, mask, turb, diffuse, cont, tpop, tfmt, copy, nosource, layout, rthreads,
-               tool.c_str(), label().c_str());
+               "\"rthreads\": %d, \"cap\": %d, \"fields\": %d, \"tool\": \"%s\", \"label\": \"%s\"}",
+               mode, threads, live, mask, turb, diffuse, cont, tpop, tfmt, copy, nosource, layout, rthreads, cap,
+               fields, tool.c_str(), label().c_str());
   }
   /// factor values; the rhd family shares one factor list with the mode in front
   std::vector< int > factors() const {
     if (mode == ION)
-      return {threads - 1, tpop, tfmt, copy, diffuse, cont, layout};
-    return {mode, threads - 1, live, mask, turb, diffuse, cont, layout, rthreads};
+      return {threads - 1, tpop, tfmt, copy, diffuse, cont, layout, cap, fields};
+    return {mode, threads - 1, live, mask, turb, diffuse, cont, layout, rthreads, cap, fields};
   }
   /// on/off pattern of the optional components (one bit per component)
   int subset_bits() const {
@@ -177,7 +345,7 @@ struct Config {
   bool operator<(const Config &o) const {
     auto key = [](const Config &c) {
       return std::make_tuple(c.mode, c.threads, c.live, c.mask, c.turb, c.diffuse, c.cont, c.layout, c.tpop, c.tfmt,
-                             c.copy, c.nosource, c.rthreads);
+                             c.copy, c.nosource, c.rthreads, c.cap, c.fields);
     };
     return key(*this) < key(o);
   }
@@ -187,6 +355,8 @@ struct Config {
 /// that a defect that only these inputs reach never shares its key with a
 /// defect seen with ordinary tracker files
 static std::string key_suffix(const Config &c) {
+  if (FIELDSEL[c.fields].noncontiguous)
+    return "@noncontiguous-ion-fields";
   if (c.mode == ION && c.tpop == TP_EMPTY)
     return "@empty-tracker-file";
   if (c.mode == ION && c.tpop == TP_MULTI)
@@ -226,6 +396,7 @@ static std::string common_text(const Config &c) {
   else
     t += "DensityFunction:\n  type: BlockSyntax\n  filename: ic_blocks.yml\n";
   t += "DensityGridWriter:\n  type: Gadget\n  padding: 3\n  prefix: snap_\n";
+  t += fields_text(c.fields);
   t += "TemperatureCalculator:\n  do temperature calculation: false\n";
   t += "Abundances:\n  helium: 0.\n";
   if (c.nosource)
@@ -247,9 +418,11 @@ static std::string common_text(const Config &c) {
 
 static std::string ion_text(const Config &c) {
   std::string t = common_text(c);
-  t += "TaskBasedIonizationSimulation:\n  number of buffers: 256\n  number of tasks: 4096\n"
-       "  queue size per thread: 1024\n  shared queue size: 1024\n  number of photons: 300\n"
-       "  number of iterations: 2\n  random seed: 42\n";
+  const Capacities cp = c.capacities();
+  t += fmt("TaskBasedIonizationSimulation:\n  number of buffers: %d\n  number of tasks: %d\n"
+           "  queue size per thread: %d\n  shared queue size: %d\n  number of photons: 300\n"
+           "  number of iterations: 2\n  random seed: 42\n",
+           cp.buffers, cp.tasks, cp.per_thread, cp.shared);
   t += fmt("  source copy level: %d\n", c.copy_level());
   if (c.diffuse)
     t += "  diffuse field: true\n";
@@ -371,9 +544,11 @@ static std::string rhd_text(const Config &c) {
   t += "HydroBoundaryManager:\n  boundary x high: reflective\n  boundary x low: reflective\n"
        "  boundary y high: reflective\n  boundary y low: reflective\n"
        "  boundary z high: reflective\n  boundary z low: reflective\n";
-  t += "TaskBasedRadiationHydrodynamicsSimulation:\n  number of iterations: 2\n  number of photons: 200\n"
-       "  random seed: 42\n  number of buffers: 256\n  number of tasks: 4096\n  queue size per thread: 1024\n"
-       "  shared queue size: 1024\n";
+  const Capacities cp = c.capacities();
+  t += fmt("TaskBasedRadiationHydrodynamicsSimulation:\n  number of iterations: 2\n  number of photons: 200\n"
+           "  random seed: 42\n  number of buffers: %d\n  number of tasks: %d\n  queue size per thread: %d\n"
+           "  shared queue size: %d\n",
+           cp.buffers, cp.tasks, cp.per_thread, cp.shared);
   t += fmt("  source copy level: %d\n", c.copy_level());
   t += fmt("  total time: %.17g s\n  maximum timestep: %.17g s\n  snapshot time: %.17g s\n", TOTAL_TIME,
            TOTAL_TIME / 4., TOTAL_TIME / 2.);
@@ -713,7 +888,7 @@ static std::string cmac_error_site(const std::string &log) {
 // ---------------------------------------------------------------------------
 struct Counters {
   std::atomic< uint64_t > runs{0}, processes{0}, syscall_param{0}, clean{0}, files_checked{0};
-  std::atomic< uint64_t > wall_ms{0}, cpu_ms{0};
+  std::atomic< uint64_t > wall_ms{0}, cpu_ms{0}, cpu_ms_valgrind{0}, cpu_ms_tight{0}, cpu_ms_noncontiguous{0};
 };
 
 static std::vector< std::string > tool_prefix(const std::string &tool) {
@@ -724,7 +899,72 @@ static std::vector< std::string > tool_prefix(const std::string &tool) {
   return {};
 }
 
+static std::string g_calibrate; // C12_CALIBRATE: build directory of an instrumented tree (NOTES.md)
+static std::mutex g_cal_mtx;
+static std::vector< std::string > g_cal_lines;
+static std::map< std::tuple< int, int, int, int, int, int, int >, std::vector< long > > g_cal_max;
+
+/// calibration only: demand figures printed by an instrumented build
+/// (TSVSTAT/TQSTAT lines, see NOTES.md "Calibration of the tight capacities")
+static void calibration_record(const Config &c, const std::string &log, int exit_code) {
+  long off = 0, tP = 0, tRmin = -1, tRmax = 0, bP = 0, bRmin = -1, bRmax = 0, q = 0, sh = 0;
+  long twrap = 0, tresets = 0, bwrap = 0, bresets = 0;
+  size_t p = 0;
+  while (p < log.size()) {
+    size_t e = log.find('\n', p);
+    if (e == std::string::npos)
+      e = log.size();
+    const std::string l = log.substr(p, e - p);
+    p = e + 1;
+    auto num = [&](const char *k) -> long {
+      size_t a = l.find(k);
+      return a == std::string::npos ? -1 : atol(l.c_str() + a + strlen(k));
+    };
+    if (l.compare(0, 14, "TSVSTAT Tasks ") == 0) {
+      if (l.find(" destroy ") != std::string::npos) {
+        off = std::max(off, num("cur="));
+        continue;
+      }
+      ++tresets;
+      tP = std::max(tP, num("max="));
+      const long r = num("cur=");
+      tRmin = tRmin < 0 ? r : std::min(tRmin, r);
+      tRmax = std::max(tRmax, r);
+      twrap += r > num("size=");
+    } else if (l.compare(0, 20, "TSVSTAT MemorySpace ") == 0 && l.find(" clear_fast ") != std::string::npos) {
+      ++bresets;
+      bP = std::max(bP, num("max="));
+      const long r = num("cur=");
+      bRmin = bRmin < 0 ? r : std::min(bRmin, r);
+      bRmax = std::max(bRmax, r);
+      bwrap += r > num("size=");
+    } else if (l.compare(0, 23, "TQSTAT Queue for Thread") == 0)
+      q = std::max(q, num("max="));
+    else if (l.compare(0, 19, "TQSTAT Shared queue") == 0)
+      sh = std::max(sh, num("max="));
+  }
+  std::lock_guard< std::mutex > g(g_cal_mtx);
+  {
+    const Demand k = c.demand_key();
+    std::vector< long > &m = g_cal_max[std::make_tuple(k.fam, k.layout, k.th, k.rt, k.diffuse, k.copy, k.cont)];
+    m.resize(6, 0);
+    const long v[6] = {off, std::max(tP, off), bP, q, sh, exit_code != 0};
+    for (int i = 0; i < 6; ++i)
+      m[i] = std::max(m[i], v[i]);
+  }
+  g_cal_lines.push_back(fmt("CAL %d %d %d exit=%d off=%ld tP=%ld tRmin=%ld tRmax=%ld twrap=%ld/%ld bP=%ld bRmin=%ld bRmax=%ld "
+                            "bwrap=%ld/%ld q=%ld sh=%ld %s",
+                            c.family(), c.layout, c.thread_class(), exit_code, off, tP, tRmin, tRmax, twrap, tresets, bP,
+                            bRmin, bRmax, bwrap, bresets, q, sh, c.label().c_str()) +
+                        (log.find("EXHAUSTED ") == std::string::npos
+                             ? std::string()
+                             : " " + log.substr(log.find("EXHAUSTED "), log.find('\n', log.find("EXHAUSTED ")) -
+                                                                            log.find("EXHAUSTED "))));
+}
+
 static std::string exe_for(const std::string &tool, int threads) {
+  if (tool == "calib")
+    return g_calibrate + (threads == 1 ? "/plain/CMacIonize" : "/omp/CMacIonize");
   if (tool == "valgrind")
     return g_build + "/omp/CMacIonize";
   return g_build + (threads == 1 ? "/asan/CMacIonize" : "/ompasan/CMacIonize");
@@ -835,6 +1075,8 @@ static void run_job(verif::Result &R, Counters &cn, const Config &c, const std::
   if (!c.nosource)
     ++cn.runs;
   bool clean = true;
+  std::string cal_log;
+  int cal_exit = 0;
   for (size_t li = 0; li < legs.size(); ++li) {
     const std::string logname = fmt("log%zu.txt", li);
     RunResult rr = run_in(dir, legs[li], logname, tool == "valgrind" ? 600. : 300., env);
@@ -842,7 +1084,17 @@ static void run_job(verif::Result &R, Counters &cn, const Config &c, const std::
       ++cn.processes;
     cn.wall_ms += (uint64_t)(rr.wall * 1000.);
     cn.cpu_ms += (uint64_t)(rr.cpu * 1000.);
+    if (tool == "valgrind")
+      cn.cpu_ms_valgrind += (uint64_t)(rr.cpu * 1000.);
+    if (c.cap)
+      cn.cpu_ms_tight += (uint64_t)(rr.cpu * 1000.);
+    if (FIELDSEL[c.fields].noncontiguous)
+      cn.cpu_ms_noncontiguous += (uint64_t)(rr.cpu * 1000.);
     const std::string log = verif::read_file(dir + "/" + logname);
+    if (tool == "calib") {
+      cal_log += log;
+      cal_exit = std::max(cal_exit, rr.exit_code < 0 ? 999 : rr.exit_code);
+    }
     const std::string legname = legs.size() > 1 ? (li == 0 ? " (first leg, to step 2)" : " (restarted leg)") : "";
     std::vector< Finding > found;
     if (tool == "valgrind") {
@@ -918,6 +1170,8 @@ static void run_job(verif::Result &R, Counters &cn, const Config &c, const std::
     if (li + 1 == legs.size())
       check_files(R, cn, c, dir, tool, false);
   }
+  if (tool == "calib")
+    calibration_record(c, cal_log, cal_exit);
   if (clean)
     ++cn.clean;
   if (!g_keep)
@@ -928,7 +1182,7 @@ static void run_job(verif::Result &R, Counters &cn, const Config &c, const std::
 // enumeration
 // ---------------------------------------------------------------------------
 /// every configuration of one mode with layouts 0..nlayout-1 (the full lattice)
-static std::vector< Config > all_configs(int mode, int nlayout) {
+static std::vector< Config > all_configs_base(int mode, int nlayout) {
   std::vector< Config > v;
   for (int th = 1; th <= 2; ++th)
     for (int lay = 0; lay < nlayout; ++lay) {
@@ -982,10 +1236,27 @@ static std::vector< Config > all_configs(int mode, int nlayout) {
   return v;
 }
 
+/// the lattice of one mode: all_configs_base x capacity regime x the given
+/// snapshot field selections
+static std::vector< Config > all_configs(int mode, int nlayout, const std::vector< int > &fieldsels) {
+  std::vector< Config > v;
+  for (const Config &b : all_configs_base(mode, nlayout))
+    for (int cap = 0; cap < NCAP; ++cap)
+      for (int f : fieldsels) {
+        Config c = b;
+        c.cap = cap;
+        c.fields = f;
+        v.push_back(c);
+      }
+  return v;
+}
+
 /// values of the first version of this check ("core" values): live output
 /// variants 0-2, layouts 0-1, tracker populations off / 4 trackers; every value
 /// of the other factors
 static bool core_value(const Config &c, size_t factor, int value) {
+  if (factor == c.fields_factor())
+    return value <= 1; // defaults, everything on
   if (c.mode == ION)
     return factor == 1 ? (value == TP_OFF || value == TP_FOUR) : factor == 6 ? value <= 1 : true;
   return factor == 2 ? value <= 2 : factor == 7 ? value <= 1 : true;
@@ -1006,16 +1277,29 @@ static void requirements_of(const Config &c, const Goal &g, std::vector< uint64_
   const std::vector< int > f = c.factors();
   const size_t n = f.size();
   auto code = [&](size_t i) { return (uint64_t)((i << 4) | (unsigned)f[i]) + 1; };
+  // the snapshot field selection is the last factor. It takes part in PAIRS
+  // only (also in the strength-3 arrays), and a configuration with a
+  // non-contiguous ion selection is credited only with the pairs that contain
+  // its selection: on a tree with the ion_present() defect (NOTES.md, finding 6)
+  // such a run ends at its first snapshot and exercises nothing else
+  const size_t ff = c.fields_factor();
+  const bool only_fields = FIELDSEL[c.fields].noncontiguous;
   if (g.strength == 2) {
     for (size_t i = 0; i < n; ++i)
       for (size_t j = i + 1; j < n; ++j)
-        out.push_back(code(i) | code(j) << 8);
+        if (!only_fields || j == ff)
+          out.push_back(code(i) | code(j) << 8);
   } else {
-    for (size_t i = 0; i < n; ++i)
-      for (size_t j = i + 1; j < n; ++j)
-        for (size_t k = j + 1; k < n; ++k)
-          out.push_back(code(i) | code(j) << 8 | code(k) << 16);
+    for (size_t i = 0; i < ff; ++i)
+      out.push_back(code(i) | code(ff) << 8);
+    if (!only_fields)
+      for (size_t i = 0; i < ff; ++i)
+        for (size_t j = i + 1; j < ff; ++j)
+          for (size_t k = j + 1; k < ff; ++k)
+            out.push_back(code(i) | code(j) << 8 | code(k) << 16);
   }
+  if (only_fields)
+    return;
   if (g.core_per_mode && g.strength == 2 && c.mode != ION)
     for (size_t i = 1; i < n; ++i)
       for (size_t j = i + 1; j < n; ++j)
@@ -1106,6 +1390,35 @@ int main(int argc, char **argv) {
   g_keep = getenv("C12_KEEP") != nullptr;
   Counters cn;
 
+  if (const char *cal = getenv("C12_CALIBRATE")) {
+    // not a check: demand figures of an instrumented build for every base
+    // configuration of the lattice (capacity regime C12_CALIBRATE_CAP, default 0)
+    g_calibrate = cal;
+    const int cap = getenv("C12_CALIBRATE_CAP") ? atoi(getenv("C12_CALIBRATE_CAP")) : 0;
+    const int reps = getenv("C12_CALIBRATE_REPS") ? atoi(getenv("C12_CALIBRATE_REPS")) : 1;
+    std::vector< Config > all;
+    for (int m = 0; m < NMODE; ++m)
+      for (Config c : all_configs_base(m, NLAYOUT)) {
+        c.cap = cap;
+        for (int r = 0; r < (c.thread_class() ? reps : 1); ++r)
+          all.push_back(c);
+      }
+    parallel_for(all.size(), 16, [&](size_t i) { run_job(R, cn, all[i], "calib", i, false); });
+    std::sort(g_cal_lines.begin(), g_cal_lines.end());
+    for (auto &l : g_cal_lines)
+      printf("%s\n", l.c_str());
+    // the table for c12_tight_table.inc (only meaningful for a run with generous capacities)
+    for (auto &e : g_cal_max) {
+      const auto &k = e.first;
+      const auto &m = e.second;
+      printf("TABLE {%d, %d, %d, %d, %d, %d, %d, %ld, %ld, %ld, %ld, %ld},%s\n", std::get< 0 >(k), std::get< 1 >(k),
+             std::get< 2 >(k), std::get< 3 >(k), std::get< 4 >(k), std::get< 5 >(k), std::get< 6 >(k), m[0], m[1], m[2],
+             m[3], m[4], m[5] ? " // SOME RUN FAILED" : "");
+    }
+    rm_rf(g_base);
+    verif::remove_fast_tmpdir(tmp);
+    return 0;
+  }
   if (!A.replay.empty()) {
     std::string txt = verif::read_file(A.replay);
     Config c;
@@ -1124,6 +1437,8 @@ int main(int argc, char **argv) {
     c.live = std::max(0, std::min(NLIVE - 1, c.live));
     c.tpop = std::max(0, std::min(NTPOP - 1, c.tpop));
     c.rthreads = atoi(verif::replay_field(txt, "rthreads").c_str());
+    c.cap = std::max(0, std::min(NCAP - 1, atoi(verif::replay_field(txt, "cap").c_str())));
+    c.fields = std::max(0, std::min(NFIELDSEL - 1, atoi(verif::replay_field(txt, "fields").c_str())));
     std::string tool = verif::replay_field(txt, "tool");
     if (c.threads < 1)
       c.threads = 1;
@@ -1153,11 +1468,16 @@ int main(int argc, char **argv) {
   goal_thorough.strength = 3;
   goal_thorough.subsets = 2;
   goal_quick_both.core_per_mode = true;
+  std::vector< int > fields_all;
+  for (int i = 0; i < NFIELDSEL; ++i)
+    fields_all.push_back(i);
+  // field selections run under valgrind as well in the quick tier: defaults, everything on
+  const std::vector< int > fields_quick_both = {0, 1};
   if (A.thorough()) {
     // per mode: strength 3 over the whole alphabet + every on/off subset of the
     // components with every thread count and with every layout
     for (int m = 0; m < NMODE; ++m) {
-      const std::vector< Config > all = all_configs(m, NLAYOUT);
+      const std::vector< Config > all = all_configs(m, NLAYOUT, fields_all);
       nall += all.size();
       const std::vector< Config > sel = cover(all, goal_thorough, rot, {}, st_both);
       both.insert(both.end(), sel.begin(), sel.end());
@@ -1167,7 +1487,7 @@ int main(int argc, char **argv) {
     // the mode as a factor; the ion mode on its own
     std::vector< Config > family;
     for (int m = 0; m < NMODE; ++m) {
-      const std::vector< Config > all = all_configs(m, NLAYOUT_QUICK);
+      const std::vector< Config > all = all_configs(m, NLAYOUT_QUICK, fields_quick_both);
       if (m == ION) {
         const std::vector< Config > sel = cover(all, goal_quick_both, rot, {}, st_both);
         both.insert(both.end(), sel.begin(), sel.end());
@@ -1180,7 +1500,7 @@ int main(int argc, char **argv) {
     }
     // AddressSanitizer alone: strength 2 PER MODE over the whole alphabet
     for (int m = 0; m < NMODE; ++m) {
-      const std::vector< Config > all = all_configs(m, NLAYOUT);
+      const std::vector< Config > all = all_configs(m, NLAYOUT, fields_all);
       nall += all.size();
       std::vector< Config > given;
       for (auto &c : both)
@@ -1207,10 +1527,16 @@ int main(int argc, char **argv) {
       c.threads = 4;
       c.rthreads = 1;
       c.layout = A.thorough() ? lay + 2 * (m == RHD_RESTART) : lay;
-      ++nconfig;
       ++nall;
-      both.push_back(c);
-      jobs.push_back({c, "valgrind"});
+      if (A.thorough() || lay == 0) {
+        ++nconfig;
+        both.push_back(c);
+        jobs.push_back({c, "valgrind"});
+      } else {
+        // quick tier: the 64-subgrid layout under AddressSanitizer only (two 4-thread legs cost 15 s under valgrind)
+        ++nconfig_asan_only;
+        asan_only.push_back(c);
+      }
       jobs.push_back({c, "asan"});
     }
   if (getenv("C12_LIST")) {
@@ -1287,14 +1613,19 @@ int main(int argc, char **argv) {
   R.set("covering_requirements_asan_only", (double)st_asan.requirements);
   R.set_str("selection",
             A.thorough()
-                ? "per mode: greedy covering array of strength 3 over all factors (every triple of factor values that "
-                  "the lattice contains) that also contains every (mode, thread count, on/off subset of the optional "
-                  "components) and every (mode, grid layout, on/off subset); both tools; plus 4 restarts of a 4-thread "
-                  "dump with 1 thread"
+                ? "per mode: greedy covering array of strength 3 over all factors but the snapshot field selection (every "
+                  "triple of factor values that the lattice contains; the capacity regime is one of the factors), every "
+                  "pair of a field selection with a value of another factor, every (mode, thread count, on/off subset of "
+                  "the optional components) and every (mode, grid layout, on/off subset); both tools; plus 4 restarts of "
+                  "a 4-thread dump with 1 thread. Configurations with a non-contiguous ion selection are credited only "
+                  "with the pairs that contain the selection"
                 : "both tools: greedy covering array of strength 2 over the four rhd modes with the mode as a factor, "
                   "extended by every pair of first-version values (live 0-2, layouts 0-1, all values of the other "
                   "factors) with every mode; strength 2 over the ion mode; layouts 0-3; plus 4 restarts of a 4-thread "
-                  "dump with 1 thread. AddressSanitizer only: strength 2 per mode over the whole alphabet (6 layouts)");
+                  "dump with 1 thread (layout 1 of these: AddressSanitizer only); capacity regimes 0-1, field selections 0, 1. "
+                  "AddressSanitizer only: strength 2 "
+                  "per mode over the whole alphabet (6 layouts, 9 field selections). Configurations with a non-contiguous "
+                  "ion selection are credited only with the pairs that contain the selection");
   {
     // the alphabet, as it was run
     std::string a = "{\"layouts\": [";
@@ -1318,6 +1649,48 @@ int main(int argc, char **argv) {
          "2->2, 2->1, 4->1\"";
     a += ", \"hydro_mask\": [\"off\", \"RescaledIC (scale factors 0.5 / 0.75 / 0.375)\", \"BlockSyntax (not with "
          "restart)\"], \"continuous_source\": [\"off\", \"on\", \"on with zero luminosity (ion)\"]";
+    a += ", \"snapshot_field_selections\": [";
+    for (int i = 0; i < NFIELDSEL; ++i)
+      a += fmt("%s\"%d: %s%s\"", i ? ", " : "", i, FIELDSEL[i].what,
+               FIELDSEL[i].noncontiguous ? " [non-contiguous ion selection]" : "");
+    a += "], \"snapshot_field_selections_under_valgrind\": [";
+    {
+      const std::vector< int > &fv = A.thorough() ? fields_all : fields_quick_both;
+      for (size_t i = 0; i < fv.size(); ++i)
+        a += fmt("%s%d", i ? ", " : "", fv[i]);
+    }
+    a += fmt("], \"capacity_regimes\": [\"0: generous (buffers %d, tasks %d, queue per thread %d, shared queue %d)\", "
+             "\"1: tight: measured peak demand of the demand class (%zu classes: family x layout x threads of both legs x "
+             "diffuse field, ion: x copy level x continuous source) + margin; one thread: +8 tasks, +8 buffers, +4 / +3 "
+             "queue entries, rhd without radiation: task vector exactly full; a leg with two threads: tasks +24 +50 %% of "
+             "the non-permanent ones, buffers x2 +24, queues bounded by the number of tasks\"]",
+             GENEROUS.buffers, GENEROUS.tasks, GENEROUS.per_thread, GENEROUS.shared, NDEMAND);
+    {
+      // the tight capacities that were actually written to parameter files
+      int lo[4] = {1 << 30, 1 << 30, 1 << 30, 1 << 30}, hi[4] = {0, 0, 0, 0};
+      size_t ntight = 0, ntight1 = 0, nnoncont = 0;
+      std::set< Config > seen;
+      for (auto &j : jobs) {
+        if (!seen.insert(j.c).second)
+          continue;
+        nnoncont += FIELDSEL[j.c.fields].noncontiguous;
+        if (!j.c.cap || j.c.thread_class() != 0)
+          continue; // two-thread configurations run with the generous capacities (see capacities())
+        ++ntight;
+        ntight1 += j.c.thread_class() == 0;
+        const Capacities cp = j.c.capacities();
+        const int v[4] = {cp.buffers, cp.tasks, cp.per_thread, cp.shared};
+        for (int k = 0; k < 4; ++k) {
+          lo[k] = std::min(lo[k], v[k]);
+          hi[k] = std::max(hi[k], v[k]);
+        }
+      }
+      a += fmt(", \"configurations_with_tight_capacities\": %zu, \"of_which_every_leg_has_one_thread\": %zu, "
+               "\"tight_capacity_ranges\": {\"buffers\": [%d, %d], \"tasks\": [%d, %d], \"queue_per_thread\": [%d, %d], "
+               "\"shared_queue\": [%d, %d]}, \"configurations_with_noncontiguous_ion_selection\": %zu",
+               ntight, ntight1, ntight ? lo[0] : 0, hi[0], ntight ? lo[1] : 0, hi[1], ntight ? lo[2] : 0, hi[2],
+               ntight ? lo[3] : 0, hi[3], nnoncont);
+    }
     a += fmt(", \"layouts_under_valgrind\": %d}", A.thorough() ? NLAYOUT : NLAYOUT_QUICK);
     R.set_json("alphabet", a);
   }
@@ -1332,7 +1705,10 @@ int main(int argc, char **argv) {
   R.set("valgrind_syscall_param_reports_not_counted_as_errors", (double)cn.syscall_param.load());
   R.set("output_files_checked", (double)cn.files_checked.load());
   R.set("process_wall_sum_s", cn.wall_ms.load() / 1000.);
-  R.set("process_cpu_sum_s", cn.cpu_ms.load() / 1000.); // independent of the load of the machine
+  R.set("process_cpu_sum_s", cn.cpu_ms.load() / 1000.); // nearly independent of the load of the machine
+  R.set("process_cpu_sum_valgrind_s", cn.cpu_ms_valgrind.load() / 1000.);
+  R.set("process_cpu_sum_tight_capacities_s", cn.cpu_ms_tight.load() / 1000.);
+  R.set("process_cpu_sum_noncontiguous_ion_selection_s", cn.cpu_ms_noncontiguous.load() / 1000.);
   R.assumptions.push_back("memcheck reports 'Syscall param write(buf) points to uninitialised byte(s)' (raw structs "
                           "with padding written to dump/HDF5 files) are counted but are not violations: the property "
                           "speaks of decisions depending on uninitialised memory");
@@ -1353,6 +1729,13 @@ int main(int argc, char **argv) {
                           "cell with a later tracker are taken to be valid input (nothing in the code or its "
                           "documentation refuses them); violations seen with these two files carry the key suffixes "
                           "@empty-tracker-file / @multi-type-tracker");
+  R.assumptions.push_back("tight capacities come from a calibration of the UNCHANGED tree (instrumented build, whole "
+                          "lattice, two-thread runs repeated 6 times; table c12_tight_table.inc, procedure in NOTES.md): "
+                          "a change of the tree that raises the demand of a run above measured peak + margin exhausts a "
+                          "pool and is reported (exhaustion of a sufficient capacity is a violation of the property, "
+                          "exhaustion of an insufficient one would not be)");
+  R.assumptions.push_back("violations of configurations whose ion selection is not a prefix of the ion list carry the key "
+                          "suffix @noncontiguous-ion-fields (finding 6 of NOTES.md)");
   R.assumptions.push_back("valgrind runs use the omp build (-g -fopenmp) for both thread counts so that inlined "
                           "frames carry function names; ASan runs use asan (1 thread) and ompasan (2 threads)");
   if (!g_keep) {
